@@ -18,12 +18,15 @@ from harness import impl
 from harness.props.c11 import cv, nats, toks, TYPES, make_arr, err_kind
 
 PROP = 'C10'
-GENERATED = ['ArrConsts']
+GENERATED = ['ArrConsts', 'PeoplePlan']
 DRIVER = 'Drivers/C10.lean'
 DRIVER_MODULES = ['StarsimModel.Model.People', 'StarsimModel.Model.Arr', 'StarsimModel.Model.Proto']
 RULE = ('(1) operation sequences (30-45 ops) on a real ss.People: grow sizes around the 50% reallocation rule, death requests '
         '(active, repeated, already dead), death resolution, removal, results, clock ticks, late state registration; '
         '(2) recorded People call histories of generated sims with Deaths / Pregnancy (maternal + neonatal death) / SIR with deaths; '
+        '(3) module-set sims: any subset of {Births, Deaths, SIR, SIS, network} (also the empty one) with deaths requested by interventions, '
+        'plain-function interventions and connectors, and Deaths / Births / requesters on their own timeline (finer / coarser dt, later start, earlier stop); '
+        'for every sim the real loop plan is compared with the regenerated plan table instantiated by the model; '
         'distinct = distinct canonical op sequence; non-trivial = at least one reallocation-free grow, one reallocating grow and one removal')
 TRUSTED = ['np.isin / np.unique as used by remove_dead; the monkey-patched recorders only observe (they call the original method first)']
 ASSUMPTIONS = ['modules change life status only through People.request_death / step_die (direct writes to alive/ti_dead by a module are outside the model; the sim replay compares alive/ti_dead after every call and would flag them)']
@@ -51,6 +54,14 @@ def observe(p, sim, written):
                 tidead=(lens(p.ti_dead), [cv(x) for x in np.asarray(p.ti_dead.raw)]),
                 states=[lens(a) for a in others], rawlens=[len(a.raw) for a in others],
                 nalive=[(t, int(sim.results.n_alive[t])) for t in written], newdeaths=[(t, int(sim.results.new_deaths[t])) for t in written])
+
+
+def stamped_living(p):
+    """ active agents that are alive and carry a death stamp (people.ti_dead set), with the stamp: read from the real arrays """
+    au = np.asarray(p.auids)
+    td = np.asarray(p.ti_dead.raw)[au]; al = np.asarray(p.alive.raw)[au].astype(bool)
+    m = ~np.isnan(td) & al
+    return [(int(u), float(t)) for u, t in zip(au[m], td[m])]
 
 
 def parse_model(line):
@@ -381,8 +392,10 @@ def record_sim(cfg, extra_module=None):
                 return f(self, *a, **kw)
             ti = int(state['sim'].t.ti)
             pre_alive = np.asarray(self.alive.raw[:self.uid.len_used]).copy() if name == 'step_die' else None
+            pre_stamped = stamped_living(self) if name in ('step_die', 'finish_step') else None
             out = f(self, *a, **kw)
             e = dict(op=name, ti=ti, phase=state['phase'])
+            if pre_stamped is not None: e['pre_stamped'] = pre_stamped
             if name == 'grow':
                 n = a[0] if a else kw.get('n'); slots = a[1] if len(a) > 1 else kw.get('new_slots')
                 e['k'] = int(n if n is not None else len(slots)); e['slots'] = None if slots is None else [int(s) for s in np.asarray(slots)]
@@ -415,6 +428,7 @@ def record_sim(cfg, extra_module=None):
                 e['obs']['ti'] = ti + 1          # the clock tick of Sim.finish_step follows immediately
             hist.append(e)
             return out
+        w.__name__ = name          # the loop plan records the function name of what it schedules
         return w
 
     for k in orig: setattr(P, k, wrap(k))
@@ -422,7 +436,7 @@ def record_sim(cfg, extra_module=None):
     state['hooks'] = hooks
     try:
         extra = [m() for m in (extra_module if isinstance(extra_module, (list, tuple)) else [extra_module])] if extra_module else None
-        sim = impl.build_sim(cfg, extra_interventions=extra) if not cfg.get('custom') else build_custom(cfg, extra)
+        sim = build_modset(cfg) if cfg.get('modset') else (impl.build_sim(cfg, extra_interventions=extra) if not cfg.get('custom') else build_custom(cfg, extra))
         sim.init()
         state['sim'] = sim
         # observe (do not alter) the death hooks of every disease and the clean-up of every route
@@ -467,6 +481,167 @@ def sim_lines(rec):
 
 
 # ---------------------------------------------------------------------------
+# (3) module-set sims: the death-resolution machinery must not depend on WHICH modules are present, on who asks, or on
+#     the clock of the module that asks
+
+REQUESTER_KINDS = ['intervention', 'function', 'connector']
+
+
+def time_kw(t):
+    """ own-timeline arguments of a module: dt, start, stop (absent = the sim's timeline) """
+    return {k: t[k] for k in ('dt', 'start', 'stop', 'unit') if t and t.get(k) is not None}
+
+
+def build_modset(cfg):
+    import starsim as ss
+    dem = []
+    for d in cfg.get('demographics', []):
+        kw = time_kw(d.get('time'))
+        if d['type'] == 'births': dem.append(ss.Births(birth_rate=d.get('birth_rate', 60), **kw))
+        elif d['type'] == 'deaths': dem.append(ss.Deaths(death_rate=d.get('death_rate', 80), name=d.get('name', 'deaths'), **kw))
+        else: raise HarnessError(d)
+    dis = []
+    for d in cfg.get('diseases', []):
+        kw = time_kw(d.get('time'))
+        if d['type'] == 'sir': dis.append(ss.SIR(beta=0.3, init_prev=0.4, dur_inf=2, p_death=d.get('p_death', 0.5), name=d.get('name', 'sir'), **kw))
+        elif d['type'] == 'sis': dis.append(ss.SIS(beta=0.3, init_prev=0.3, name=d.get('name', 'sis'), **kw))
+        else: raise HarnessError(d)
+    nets = [ss.RandomNet(n_contacts=4) for nd in cfg.get('networks', []) if nd['type'] == 'random']
+    intvs = []; conns = []
+    for i, r in enumerate(cfg.get('requesters', [])):
+        every, off = int(r.get('every', 20)), int(r.get('offset', 0))
+        if r['kind'] == 'intervention':
+            class Cull(ss.Intervention):
+                """ a programme that removes every k-th active agent each time it runs """
+                def __init__(self, every, off, **kw):
+                    super().__init__(**kw); self.every = every; self.off = off
+                def step(self):
+                    p = self.sim.people
+                    p.request_death(p.auids[self.off::self.every])
+            intvs.append(Cull(every, off, name=f'cull{i}', **time_kw(r.get('time'))))
+        elif r['kind'] == 'function':
+            def mk(every, off):
+                def cull_func(sim):
+                    sim.people.request_death(sim.people.auids[off::every])
+                cull_func.__name__ = f'cullfunc{i}'
+                return cull_func
+            intvs.append(mk(every, off))
+        elif r['kind'] == 'connector':
+            class CullConn(ss.Connector):
+                def __init__(self, every, off, **kw):
+                    super().__init__(**kw); self.every = every; self.off = off
+                def step(self):
+                    p = self.sim.people
+                    p.request_death(p.auids[self.off::self.every])
+            conns.append(CullConn(every, off, name=f'cullconn{i}', **time_kw(r.get('time'))))
+        else: raise HarnessError(r)
+    pars = dict(n_agents=cfg['n_agents'], rand_seed=cfg.get('rand_seed', 1), verbose=0, unit=cfg.get('unit', 'year'), dt=cfg.get('dt', 1.0),
+                start=cfg.get('start', 2000), dur=cfg.get('dur', 8))
+    if dem: pars['demographics'] = dem
+    if dis: pars['diseases'] = dis
+    if nets: pars['networks'] = nets
+    if intvs: pars['interventions'] = intvs
+    if conns: pars['connectors'] = conns
+    return ss.Sim(**pars)
+
+
+def modset(why, **kw):
+    return (why, dict(dict(modset=True, n_agents=60, rand_seed=11, unit='year', dt=1.0, start=2000, dur=8, demographics=[], diseases=[], networks=[], requesters=[]), **kw), None)
+
+
+# the grid every run executes: module sets x who asks x whose clock
+MODSET_FIXED = [
+    modset('deaths requested by an intervention in a sim with no demographics and no disease module', requesters=[dict(kind='intervention', every=12)]),
+    modset('deaths requested by a plain-function intervention and by a connector; network but no demographics / diseases',
+           networks=[dict(type='random')], requesters=[dict(kind='function', every=15, offset=1), dict(kind='connector', every=20, offset=2)]),
+    modset('a connector asks; the only other modules never kill (Births, SIS)', demographics=[dict(type='births', birth_rate=80)], diseases=[dict(type='sis')],
+           networks=[dict(type='random')], requesters=[dict(kind='connector', every=10)]),
+    modset('Deaths on a finer clock than the sim (module ti runs ahead of sim.ti)', dur=10, demographics=[dict(type='births', birth_rate=60), dict(type='deaths', death_rate=120, time=dict(dt=0.5))]),
+    modset('Deaths on a coarser clock than the sim (module ti lags sim.ti) next to a disease that kills', dt=0.25, dur=5, networks=[dict(type='random')],
+           diseases=[dict(type='sir', p_death=0.5)], demographics=[dict(type='deaths', death_rate=200, time=dict(dt=1.0))]),
+    modset('Deaths that starts later and stops earlier than the sim; an intervention that starts later', dur=12,
+           demographics=[dict(type='deaths', death_rate=150, time=dict(start=2004, stop=2009))], requesters=[dict(kind='intervention', every=15, time=dict(start=2003))]),
+    modset('requesters on their own finer / coarser clocks, Births on a finer clock', dur=8, demographics=[dict(type='births', birth_rate=80, time=dict(dt=0.5))],
+           requesters=[dict(kind='intervention', every=14, time=dict(dt=0.5)), dict(kind='connector', every=18, offset=3, time=dict(dt=2.0))]),
+]
+
+
+def gen_modset_cfg(rng):
+    dt = rng.choice([1.0, 0.5, 0.25])
+    def own(p=0.5):
+        if rng.random() > p: return None
+        q = rng.random()
+        if q < 0.35: return dict(dt=dt * rng.choice([0.5, 2.0, 4.0]))
+        if q < 0.7: return dict(start=2000 + rng.choice([1, 2, 3]), stop=2000 + rng.choice([4, 5]))
+        return dict(dt=dt * rng.choice([0.5, 2.0]), start=2000 + rng.choice([1, 2]))
+    dem = []; dis = []
+    if rng.random() < 0.4: dem.append(dict(type='births', birth_rate=rng.choice([40, 120]), time=own(0.3)))
+    if rng.random() < 0.5: dem.append(dict(type='deaths', death_rate=rng.choice([80, 200, 400]), time=own(0.8)))
+    if rng.random() < 0.4: dis.append(rng.choice([dict(type='sir', p_death=rng.choice([0.3, 0.8])), dict(type='sis')]))
+    nets = [dict(type='random')] if (dis or rng.random() < 0.3) else []
+    reqs = [dict(kind=rng.choice(REQUESTER_KINDS), every=rng.choice([8, 12, 20]), offset=rng.randint(0, 3), time=None) for _ in range(rng.choice([0, 1, 1, 2, 3]))]
+    for r in reqs:
+        if r['kind'] != 'function': r['time'] = own(0.3)
+    if not reqs and not any(d['type'] == 'deaths' for d in dem) and not any(d['type'] == 'sir' for d in dis):
+        reqs = [dict(kind=rng.choice(REQUESTER_KINDS), every=10, offset=0, time=None)]
+    return dict(modset=True, n_agents=rng.choice([40, 70]), rand_seed=rng.randint(1, 99), unit='year', dt=dt, start=2000, dur=rng.choice([6, 8]),
+                demographics=dem, diseases=dis, networks=nets, requesters=reqs)
+
+
+# ---------------------------------------------------------------------------
+# the loop plan of a real sim against the regenerated plan table instantiated by the model
+
+def plan_guards(rows):
+    out = []
+    for r in rows:
+        if r[2] and r[2] not in out: out.append(r[2])
+    return out
+
+
+def plan_line(sim, rows):
+    """ the truth value of every guard that does not depend on the loop variable, for THIS sim (guards on the element are
+        evaluated per element when the model's rows are instantiated) """
+    import starsim as ss
+    bits = []
+    for g in plan_guards(rows):
+        if '_' in g.replace('__', ''): bits.append(1)
+        else: bits.append(1 if eval(g, dict(ss=ss, sim=sim, len=len, isinstance=isinstance, np=np)) else 0)
+    return 'plan ' + (','.join(map(str, bits)) or '-')
+
+
+PLAN_METHODS = ('start_step', 'step_state', 'step', 'step_die', 'update_results', 'finish_step')
+
+
+def real_plan(sim):
+    """ (owner, method) of every function the real loop schedules; the method is found on the owner (a plain-function
+        intervention is scheduled under the function's own name) """
+    out = []
+    for r in sim.loop.funcs:
+        f = r['func']; parent = getattr(f, '__self__', None)
+        meth = next((a for a in PLAN_METHODS if parent is not None and getattr(parent, a, None) == f), r['func_name'])
+        out.append(f"{r['module']}.{meth}")
+    return out
+
+
+def instantiate_plan(sim, model_rows, rows):
+    """ the model's scheduled rows (container/method) instantiated with the modules of this sim """
+    import starsim as ss
+    guard = {(r[0], r[1]): r[2] for r in rows}
+    out = []
+    for item in model_rows:
+        c, m = item.rsplit('/', 1)
+        if c == 'sim': out.append(f'sim.{m}')
+        elif c == 'sim.people': out.append(f'people.{m}')
+        else:
+            mods = list(eval(c, dict(sim=sim)))
+            g = guard.get((c, m), '')
+            for mod in mods:
+                if g and '_' in g.replace('__', '') and not eval(g, dict(ss=ss, sim=sim, _=mod, len=len, isinstance=isinstance)): continue
+                out.append(f'{mod.name}.{m}')
+    return out
+
+
+# ---------------------------------------------------------------------------
 
 def correspond(ctx):
     facts = (ctx.extracted.get('ArrConsts') or {}).get('facts') or {}
@@ -481,11 +656,11 @@ def correspond(ctx):
             continue
         per.append(('seq', case, lines, log, len(all_lines))); all_lines += lines
     nsim = ctx.budget(8, 60)
-    for k in range(nsim + len(FIXED_SIMS)):
-        if k < len(FIXED_SIMS):
-            cfg = FIXED_SIMS[k][1]; extra = fixed_extra(FIXED_SIMS[k][2])
-        else:
-            cfg = gen_sim_cfg(ctx.rng, k); extra = None
+    plan_rows = ((ctx.extracted.get('PeoplePlan') or {}).get('facts') or {}).get('rows')
+    sims = [(cfg, fixed_extra(tag)) for _, cfg, tag in FIXED_SIMS + MODSET_FIXED]
+    sims += [(gen_sim_cfg(ctx.rng, k), None) for k in range(nsim)]
+    sims += [(gen_modset_cfg(ctx.rng), None) for k in range(ctx.budget(6, 40))]
+    for cfg, extra in sims:
         try:
             rec = record_sim(cfg, extra)
         except Exception as e:
@@ -494,11 +669,28 @@ def correspond(ctx):
             continue
         lines, obs = sim_lines(rec)
         per.append(('sim', cfg, lines, obs, len(all_lines))); all_lines += lines
+        if plan_rows:
+            try:
+                per.append(('plan', cfg, [plan_line(rec['sim'], plan_rows)], rec['sim'], len(all_lines))); all_lines += per[-1][2]
+            except Exception as e:
+                ctx.broke('correspondence', 'C10.plan', f'a guard of the regenerated loop plan could not be evaluated on a real sim: {type(e).__name__}: {e}', data=dict(kind='sim', cfg=cfg))
     out = ctx.drive(DRIVER, all_lines)
     nbroken = 0
     for kind, case, lines, log, off in per:
         ml = out[off:off + len(lines)]
         div = None; at = None
+        if kind == 'plan':
+            ctx.count('plan_checks')
+            m = parse_model(ml[0])
+            if m['st'] != 'ok':
+                d = f'model answered {ml[0][:80]}'
+            else:
+                want = instantiate_plan(log, lst(m['rows']), plan_rows); got = real_plan(log)
+                d = None if want == got else f"the loop plan of the real sim differs from the regenerated plan table instantiated for its modules: real={got} model={want}"
+            if d is not None and nbroken < 3:
+                nbroken += 1
+                ctx.broke('correspondence', 'C10.plan', d, data=dict(kind='sim', cfg=case))
+            continue
         for j, item in enumerate(log):
             obs = item[1] if kind == 'seq' else item
             d = compare(obs, ml[j], sim_mode=(kind == 'sim'))
@@ -533,6 +725,8 @@ class Tracker:
         self.late_pending = set()
         self.late_site = {}        # uid -> (requesting site, 'prenatal' | 'born') of a request made after death resolution
         self.fails = []
+        self.loop_order = True     # the calls come in the order of the simulation loop (sims, structured sequences)
+        self.step_calls = []       # People phases seen since the last finish_step
 
     def bad(self, oracle, what, **sig):
         self.fails.append((dict(oracle=oracle, **sig), what))
@@ -590,6 +784,12 @@ class Tracker:
         elif op == 'step_die':
             if e['revived']: self.bad('permanent', f'{where}: step_die revived {e["revived"][:5]}')
             flipped = set(e['flipped'])
+            self.step_calls.append('step_die')
+            # observed state, not recorded calls: whoever carries a death stamp when death resolution starts has been asked to die
+            surv = [(u, t) for u, t in e.get('pre_stamped', []) if u not in flipped]
+            if surv:
+                self.bad('death-timing', f"{where}: {len(surv)} living active agent(s) carry a death stamp when death resolution runs and survive it, e.g. agent {surv[0][0]} with ti_dead={surv[0][1]:g} at sim.ti={ti}"
+                         f" ({'a stamp in the future of the sim clock' if surv[0][1] > ti else 'a due stamp'})", cause='stamp-survives-resolution')
             if len(e['died']) != len(set(e['died'])): self.bad('multi-request', f'{where}: step_die lists an agent twice')
             pre = set(u for u in self.requests_pre.get(ti, ()) if u in set(prev['au']) and prev['alive'][1][u] == 'T')
             if not pre <= flipped: self.bad('death-timing', f'{where}: agents {sorted(pre - flipped)[:5]} requested before death resolution of this step are still alive')
@@ -606,6 +806,7 @@ class Tracker:
                     if sorted(calls[0]) != sorted(e['died']) or not flipped <= set(calls[0]):
                         self.bad('disease-hook', f"{where}: {name}.step_die got {sorted(calls[0])[:8]} but the agents that die are {sorted(e['died'])[:8]}", site='People.step_die')
         elif op == 'update_results':
+            self.step_calls.append('update_results')
             na = dict(o['nalive']).get(ti); nd = dict(o['newdeaths']).get(ti)
             alive_now = sum(1 for u in o['au'] if o['alive'][1][u] == 'T')
             if na != alive_now: self.bad('balance', f'{where}: n_alive[{ti}]={na} but {alive_now} active agents are alive')
@@ -629,6 +830,17 @@ class Tracker:
             self.late_pending -= getattr(self, 'flipped_now', set())
             self.last_nalive = na; self.created = 0; self.died = 0; self.died_now = 0; self.flipped_now = set()
         elif op == 'finish_step':
+            if self.loop_order:
+                # every step has exactly one death-resolution phase followed by one recording of the results, whatever the module set
+                if self.step_calls != ['step_die', 'update_results']:
+                    self.bad('loop-phases', f"{where}: the People phases of this step were {self.step_calls or 'none'}, expected step_die then update_results", got='+'.join(self.step_calls) or 'none')
+                # nobody asked to die before death resolution is still alive at the end of the step
+                late = self.requests_post.get(ti, set())
+                left = [(u, t) for u, t in e.get('pre_stamped', []) if u not in late]
+                if left:
+                    self.bad('death-timing', f"{where}: {len(left)} living active agent(s) whose death was requested before (or without) the death-resolution phase of this step are still alive at the end of the step, "
+                             f"e.g. agent {left[0][0]} with ti_dead={left[0][1]:g}", cause='unresolved-at-step-end')
+            self.step_calls = []
             alive = o['alive'][1]
             want = [u for u in prev['au'] if alive[u] == 'T']
             if o['au'] != want: self.bad('active', f'{where}: auids after removal {o["au"][:10]}… is not the living active agents {want[:10]}…', site='People.remove_dead')
@@ -668,10 +880,12 @@ def oracle_opseq(case):
     tr = Tracker(observe(w.p, w.sim, []))
     phase = 'pre'
     structured = bool(case.get('structured'))
+    tr.loop_order = structured
     for op in case['ops']:
         ti = int(w.sim.t.ti)
         pre_alive = np.asarray(w.p.alive.raw[:w.p.uid.len_used]).copy()
         n_before = int(w.p.uid.len_used)
+        pre_stamped = stamped_living(w.p)
         obs = w.exec(op)
         o = obs['obs']
         if obs['st'] != 'ok':
@@ -707,6 +921,7 @@ def oracle_opseq(case):
             if o['au'] != want: tr.bad('active', f'after remove_dead: auids {o["au"][:10]} is not the living active agents {want[:10]}', site='People.remove_dead')
             tr.removed |= set(tr.prev['au']) - set(o['au']); tr.prev = o; continue
         e = dict(op=OPMAP[op[0]], ti=ti, phase=phase, obs=o)
+        if op[0] in ('stepdie', 'finish'): e['pre_stamped'] = pre_stamped
         if op[0] == 'grow':
             e['k'] = op[1] if (op[2] is None or op[3] == 'both') else len(op[2]); e['new'] = obs.get('new', [])
         elif op[0] == 'request':
@@ -804,7 +1019,19 @@ def search(ctx):
         ctx.count('oracle_sims'); ctx.count('oracle_sim_deaths', tot['dead'])
         for sig, what in fails:
             ctx.fail(sig, what, dict(kind='sim', cfg=cfg))
-    for why, cfg, tag in FIXED_SIMS:
+    # module-set sims: the empty module set, non-demographic requesters, modules on their own clocks
+    for k in range(ctx.budget(8, 60)):
+        cfg = gen_modset_cfg(ctx.rng)
+        try:
+            fails, tot = oracle_sim(cfg)
+        except Exception as e:
+            ctx.fail(dict(oracle='raises', op='sim.run'), f'a generated module-set sim raised {type(e).__name__}: {e}', dict(kind='sim', cfg=cfg))
+            continue
+        ctx.count('oracle_modset_sims'); ctx.count('oracle_sim_deaths', tot['dead'])
+        if tot['dead'] == 0: ctx.count('oracle_modset_sims_without_deaths')
+        for sig, what in fails:
+            ctx.fail(sig, what, dict(kind='sim', cfg=cfg))
+    for why, cfg, tag in FIXED_SIMS + MODSET_FIXED:
         try:
             fails, tot = oracle_sim(cfg, fixed_extra(tag))
         except Exception as e:
@@ -812,6 +1039,8 @@ def search(ctx):
             ctx.fail(dict(oracle='raises', op='sim.run'), f'the fixed scenario sim [{why}] raised {type(e).__name__}: {e} {traceback.format_exc()[-300:]}', dict(kind='fixed-sim', cfg=cfg, tag=tag))
             continue
         ctx.count('oracle_fixed_sims'); ctx.count('oracle_sim_deaths', tot['dead'])
+        if cfg.get('modset') and tot['dead'] == 0:
+            ctx.fail(dict(oracle='scenario-vacuous', op='sim.run'), f'the fixed scenario sim [{why}] is there to have deaths requested and carried out, but nobody died in it', dict(kind='fixed-sim', cfg=cfg, tag=tag))
         for sig, what in fails:
             ctx.fail(sig, what, dict(kind='fixed-sim', cfg=cfg, tag=tag))
     # operation sequences
